@@ -147,6 +147,9 @@ func c06(r *eng.Run) {
 		},
 		refKey: func(w []byte, a *ref.PDA) string { return a.Key() + ref.StrRefine(w) },
 		maxLen: 40,
+		// plain runs up to 33 bytes before the interesting byte and 16 after it: 16-byte block
+		// scanners
+		pumpN: 33, pumpTail: 16,
 	}
 	res := runE1(r, sp, 0, K, 500000)
 	e1Evidence(r, 0, K, res)
